@@ -263,7 +263,11 @@ void ezc3d::ParametersNS::Parameters::write(std::fstream &f) const
     nBlocksToNext = int(actualPos)/512;
     if (int(actualPos) % 512 > 0)
         ++nBlocksToNext;
-    f.write(reinterpret_cast<const char*>(&nBlocksToNext), ezc3d::BYTE);
+    ++nBlocksToNext; // DATA_START is the (1-based) number of the first block of the data section
+    f.write(reinterpret_cast<const char*>(&nBlocksToNext), ezc3d::DATA_TYPE::WORD);
+    // The same block number is stored in the 9th word of the header
+    f.seekg(8*ezc3d::DATA_TYPE::WORD);
+    f.write(reinterpret_cast<const char*>(&nBlocksToNext), ezc3d::DATA_TYPE::WORD);
     f.seekg(actualPos);
 }
 
